@@ -28,6 +28,9 @@ type Facts struct {
 	// strict: a branch condition that contradicts a known fact makes the state dead (inlined graphs, where the facts
 	// about a helper's result make some branches after the call infeasible)
 	strict bool
+	// nand: pairs of simple conditions known not to hold together (`if a && b { return }` fell through): as soon as
+	// one becomes known true the other is known false
+	nand map[string][2]ast.Expr
 }
 
 type pendAtom struct {
@@ -55,6 +58,12 @@ func (f Facts) clone() Facts {
 		n.pend = make(map[string]pendAtom, len(f.pend))
 		for k, v := range f.pend {
 			n.pend[k] = v
+		}
+	}
+	if len(f.nand) > 0 {
+		n.nand = make(map[string][2]ast.Expr, len(f.nand))
+		for k, v := range f.nand {
+			n.nand[k] = v
 		}
 	}
 	if len(f.bexp) > 0 {
@@ -188,6 +197,11 @@ func (f *Facts) assume(e ast.Expr, val bool) {
 				f.assume(x.Y, false)
 			} else if k, ok := f.Known(x.Y); ok && k {
 				f.assume(x.X, false)
+			} else if isSimpleCond(x.X) && isSimpleCond(x.Y) {
+				if f.nand == nil {
+					f.nand = map[string][2]ast.Expr{}
+				}
+				f.nand[exprStr(x.X)+" ∧ "+exprStr(x.Y)] = [2]ast.Expr{x.X, x.Y}
 			}
 			return
 		case token.LOR:
@@ -221,6 +235,15 @@ func (f *Facts) assume(e ast.Expr, val bool) {
 			f.bexp = map[string]ast.Expr{}
 		}
 		f.bexp[atom] = e
+	}
+	for k, pr := range f.nand {
+		for i := 0; i < 2; i++ {
+			if kv, ok := f.Known(pr[i]); ok && kv {
+				delete(f.nand, k)
+				f.assume(pr[1-i], false)
+				break
+			}
+		}
 	}
 	// x == nil decided and x ≡ y: y == nil is decided too
 	if strings.HasSuffix(atom, " == nil") {
@@ -342,6 +365,11 @@ func (f *Facts) kill(lv string) {
 	for k := range f.pend {
 		if mentions(k, lv) {
 			delete(f.pend, k)
+		}
+	}
+	for k := range f.nand {
+		if mentions(k, lv) {
+			delete(f.nand, k)
 		}
 	}
 }
@@ -506,8 +534,13 @@ func (g *Graph) factsLattice() Lattice[Facts] {
 					return false
 				}
 			}
-			if len(a.pend) != len(b.pend) {
+			if len(a.pend) != len(b.pend) || len(a.nand) != len(b.nand) {
 				return false
+			}
+			for k := range a.nand {
+				if _, ok := b.nand[k]; !ok {
+					return false
+				}
 			}
 			for k := range a.pend {
 				if _, ok := b.pend[k]; !ok {
@@ -673,6 +706,11 @@ func (g *Graph) factsLattice() Lattice[Facts] {
 					for k := range n.pend {
 						if mentionsFieldOf(k, r) {
 							delete(n.pend, k)
+						}
+					}
+					for k := range n.nand {
+						if mentionsFieldOf(k, r) {
+							delete(n.nand, k)
 						}
 					}
 				}
@@ -930,6 +968,14 @@ func joinFacts(g *Graph, a, b Facts, widen bool) Facts {
 				n.pend = map[string]pendAtom{}
 			}
 			n.pend[k] = v
+		}
+	}
+	for k, v := range a.nand {
+		if _, ok := b.nand[k]; ok {
+			if n.nand == nil {
+				n.nand = map[string][2]ast.Expr{}
+			}
+			n.nand[k] = v
 		}
 	}
 	same := len(a.m) == len(b.m)
@@ -1285,3 +1331,24 @@ func (p *Program) nonNilErrorValue(info *types.Info, e ast.Expr) bool {
 
 // pureCompare: library predicates whose result depends only on their arguments' values.
 var pureCompare = map[string]bool{"bytes.Equal": true, "strings.EqualFold": true, "strings.HasPrefix": true, "strings.HasSuffix": true, "strings.Contains": true, "reflect.DeepEqual": true}
+
+// isSimpleCond: a condition without && / || and without calls (a field, a variable, a comparison of such).
+func isSimpleCond(e ast.Expr) bool {
+	ok := true
+	ast.Inspect(e, func(n ast.Node) bool {
+		switch x := n.(type) {
+		case *ast.CallExpr:
+			if id, isId := x.Fun.(*ast.Ident); !isId || id.Name != "len" {
+				ok = false
+			}
+		case *ast.BinaryExpr:
+			if x.Op == token.LAND || x.Op == token.LOR {
+				ok = false
+			}
+		case *ast.FuncLit:
+			ok = false
+		}
+		return ok
+	})
+	return ok
+}
